@@ -10719,6 +10719,13 @@ impl SctpTransport {
     pub fn verif_lc_set_close_reason(&self, reason: Option<String>) {
         *self.inner.close_reason.lock() = reason;
     }
+
+    /// Forget when the last SACK arrived: `send_heartbeat` treats a SACK within the last
+    /// 30 s (hard-coded) as proof of life, which would push a heartbeat-timeout scenario
+    /// with a peer that has just gone silent beyond half a minute.
+    pub fn verif_lc_forget_last_sack(&self) {
+        *self.inner.last_sack_time.lock() = None;
+    }
 }
 
 // ---------------------------------------------------------------------------
